@@ -126,7 +126,9 @@ func (it Item) label() string {
 
 // HostileClass is the stable abstract description of what is hostile in a
 // scenario: the classes of its last item (and of the length that governs a
-// byte field), plus how the input ends. It never contains a seed or an offset.
+// byte field / the count of a ClassAd). How the input ends (cut, end of message
+// or end of connection) is part of the scenario but not of the class. It never
+// contains a seed or an offset.
 func (s *Scn) HostileClass() string {
 	n := len(s.Items)
 	switch s.Fam {
@@ -156,12 +158,6 @@ func (s *Scn) HostileClass() string {
 		if n >= 2 && s.Items[n-2].C == "marker" {
 			lab += ",after-marker"
 		}
-	}
-	if s.Cut {
-		lab += "+cut"
-	}
-	if s.Fin == "eof" && s.Fam != "frame" && s.Fam != "pass" {
-		lab += "+eof"
 	}
 	return lab
 }
